@@ -334,6 +334,16 @@ def gen_cases(rng, graphs, n, profile, prefix='w'):
     cases = []
     for k in range(n):
         g = graphs[k % len(graphs)] if profile.get('sweep') else rng.choice(graphs)
+        if rng.random() < profile.get('big', 0.12):
+            # beyond the TLC-exported family (<= 4 layers): a random DAG with
+            # ordered bases on 5 or 6 layers (diamonds with extra bases)
+            nn = rng.choice([5, 5, 6])
+            bases = []
+            for i in range(nn):
+                cand = list(range(1, i + 1))
+                rng.shuffle(cand)
+                bases.append(cand[:rng.choice([0, 1, 1, 2, 2, 3])])
+            g = {'n': nn, 'bases': bases}
         f = profile.get('faults')
         w = worlds.make_world(
             '%s%d' % (prefix, k), g, rng,
